@@ -180,6 +180,13 @@ def history(kind, cls, meth, attr):
             v2 = changed_value(cls, attr)
             ip.setattr(o, attr, v2)
             got_obj = ip.getattr(b, 'correlations')
+        elif kind == 'deepcopy':
+            from pyvc.lib import copy_deepcopy
+            c2 = copy_deepcopy(ip, [o], {})
+            p2 = p                       # an object built from it earlier (copy.deepcopy) is unaffected by later changes of the original
+            v2 = changed_value(cls, attr)
+            ip.setattr(o, attr, v2)
+            got_obj = c2
         else:
             v2 = changed_value(cls, attr)
             p2 = dict(p)
@@ -202,7 +209,8 @@ def history(kind, cls, meth, attr):
             ip.prove('path-accounted', z3.BoolVal(True))
             return
         got, want = out.value
-        name = {'memo': 'memo/consistent', 'attrs': 'attrs/consistent', 'alias': 'alias/copy-independent', 'reuse': 'reuse/same-as-fresh'}[kind]
+        name = {'memo': 'memo/consistent', 'attrs': 'attrs/consistent', 'alias': 'alias/copy-independent', 'reuse': 'reuse/same-as-fresh',
+                'deepcopy': 'alias/deepcopy-independent'}[kind]
         ip.prove('%s[%s.%s%s]' % (name, cls, meth, ', ' + attr if attr else ''), same(ip, got, want),
                  {'class': cls, 'method': meth, 'attribute': attr})
     return scen, invoke, post
@@ -222,7 +230,7 @@ def targets(tier='quick'):
             s, i, p = history('reuse', cls, meth, None)
             T.append(Target('hist/reuse[%s.%s]' % (cls, meth), q, s, p, R, PROP, invoke=i, replay=rp))
             for attr in attrs:
-                for kind in ('memo', 'attrs', 'alias'):
+                for kind in ('memo', 'attrs', 'alias', 'deepcopy'):
                     s, i, p = history(kind, cls, meth, attr)
                     T.append(Target('hist/%s[%s.%s,%s]' % (kind, cls, meth, attr), q, s, p, R, PROP, invoke=i, replay=rp))
     # re-use of one ParameterizedSystem in computations on different time grids (contracts shared with C08)
